@@ -471,6 +471,11 @@ func (t *fnTrans) assignSites() {
 		}
 	}
 	sort.SliceStable(all, func(a, b int) bool {
+		// sites without a source position (compiler-made branches) go last
+		va, vb := all[a].pos.IsValid(), all[b].pos.IsValid()
+		if va != vb {
+			return va
+		}
 		if all[a].pos != all[b].pos {
 			return all[a].pos < all[b].pos
 		}
